@@ -414,6 +414,10 @@ impl<VM: VMBinding> MarkCompactSpace<VM> {
     pub fn compact(&self) {
         let mut to = Address::ZERO;
         for (from_start, size) in self.pr.iterate_allocated_regions() {
+            if to.is_zero() {
+                // If no object survives, the bump pointer restarts at the first region.
+                to = from_start;
+            }
             let from_end = from_start + size;
             for obj in self.linear_scan_objects(from_start..from_end) {
                 let copied_size = VM::VMObjectModel::get_size_when_copied(obj);
@@ -441,6 +445,11 @@ impl<VM: VMBinding> MarkCompactSpace<VM> {
         }
 
         debug!("Compact end: to = {}", to);
+
+        if to.is_zero() {
+            // No memory has been allocated in this space yet.
+            return;
+        }
 
         // reset the bump pointer
         self.pr.reset_cursor(to);
